@@ -343,6 +343,39 @@ def count_lines(path):
     return n
 
 
+def replay_file(pid, path):
+    """--replay <file written next to a VIOLATION line>: prints the recorded cases and re-executes those whose
+    engine has a single-case entry point (vh wrap replay / seg replay / fault one) on the current tree.
+    Exit 1 when the file describes a violation of this property (it always does), 2 when unreadable."""
+    import shlex
+    try:
+        doc = json.load(open(path))
+    except Exception as e:
+        print("UNDECIDED property=%s: cannot read replay file %s: %s" % (pid, path, e))
+        return 2
+    print("REPLAY property=%s signature=%s tier=%s seed=%s cases=%s" % (doc.get("property"), doc.get("signature"), doc.get("tier"), doc.get("seed"), doc.get("count")))
+    c = None
+    for case in doc.get("cases", []):
+        print("CASE " + str(case.get("description"))[:2000])
+        rep = case.get("replay") or {}
+        cmd = rep.get("replay_cmd") if isinstance(rep, dict) else None
+        if cmd and cmd.startswith("vh "):
+            if c is None:
+                c = Check(pid, "quick", int(doc.get("seed") or 1))
+                c.build_vh()
+            try:
+                args = shlex.split(cmd)[1:]
+                p = c.vh(args, check=False, timeout=300)
+                print("RERUN " + cmd[:300])
+                print((p.stdout or "")[-3000:])
+            except Exception as e:   # a re-execution problem is not a verdict
+                print("RERUN failed: %s" % e)
+        elif isinstance(rep, dict):
+            print("DATA " + json.dumps(rep)[:2000])
+    print("VIOLATION property=%s replay=%s (recorded case, see above)" % (pid, path))
+    return 1
+
+
 def main_wrapper(pid, fn, level="model_checking"):
     import argparse
     ap = argparse.ArgumentParser()
@@ -352,6 +385,8 @@ def main_wrapper(pid, fn, level="model_checking"):
     a = ap.parse_args(sys.argv[2:])
     if a.tier not in ("quick", "thorough"):
         a.tier = "quick"
+    if a.replay:
+        sys.exit(replay_file(pid, a.replay))
     c = Check(pid, a.tier, a.seed, level=level)
     try:
         fn(c, a)
